@@ -33,7 +33,7 @@ def gen_cell(rng, ne, nm, mt, empty_p=0.25, big=False, huge=False):
     if rng.random() < empty_p:
         return dict(S=0, E=[0] * ne, I=0, R=0, M=[0] * nm, D=0)
     S = rng.choice([0, 1, 2, 5, 10, rng.randint(0, 40 if big else 20)])
-    if huge and rng.random() < 0.5:
+    if huge and rng.random() < 0.15:
         S = rng.choice([100, 300, 257, rng.randint(50, 300)])   # the extracted model validates draws in quadratic time
     E = [0] * ne
     if mt == "SEI" and ne and rng.random() < 0.5:
@@ -79,7 +79,7 @@ def gen_scenario(rng, focus=None, entry=None):
     unit, n = rng.choice([("month", 1), ("month", 1), ("month", 2), ("week", 1), ("week", 2), ("day", 7), ("day", 28), ("month", 3)])
     sy = rng.choice([2019, 2020, 2021])
     start = (sy, rng.choice([1, 1, 3, 11, 12]) if unit != "month" else rng.choice([1, 1, 6, 10, 12]), 1)
-    nsteps_wanted = rng.randint(15, 30) if large else rng.randint(2, 14)
+    nsteps_wanted = rng.randint(15, 24) if large else rng.randint(2, 14)
     # find an end date giving about that many steps
     cur = start
     for _ in range(nsteps_wanted):
@@ -127,7 +127,9 @@ def gen_scenario(rng, focus=None, entry=None):
     sc.add("mt", mt, latency)
     sc.add("stoch", gen_st, est_st, 1, disp_st)
     sc.add("estprob", dy(rng, ["0", "1/4", "1/2", "3/4", "1", "1"]))
-    sc.add("rr", dy(rng, ["0", "1/2", "1", "2", "3", "3/2", "4", "1/4"]))
+    # (large scenarios: low rates - the outside-disperser list is printed in every snapshot and the
+    # extracted model appends to it in linear time, so tens of thousands of dispersers cost hours)
+    sc.add("rr", dy(rng, ["0", "1/4", "1/2", "1/4", "1"]) if large else dy(rng, ["0", "1/2", "1", "2", "3", "3/2", "4", "1/4"]))
     ktype = rng.choice(["cauchy", "exponential", "deterministic-neighbor", "cauchy", "weibull", "logistic", "normal", "uniform"])
     if focus == "overpop" and rng.random() < 0.4:
         ktype = "deterministic-neighbor"
